@@ -144,8 +144,10 @@ FWakeByRef(t, w) ==
   /\ touched' = Touch(w)
   /\ UNCHANGED <<ocount, cur, inPoll, rec, fw, waking>>
 
-FDrop(t, w) ==
-  /\ Owns(t, w)
+(* how: the handle goes out of scope normally, or is dropped by a thread that is unwinding from a panic (caught further  *)
+(* up): the same release either way                                                                                      *)
+FDrop(t, w, how) ==
+  /\ Owns(t, w) /\ how \in {"plain", "unwind"}
   /\ touched' = IF "release_per_handle" \in Deviations THEN Touch(w) ELSE touched
   /\ ReleaseHandle(w)
   /\ UNCHANGED <<owakes, cur, inPoll, waking>>
@@ -166,7 +168,7 @@ Core(e) ==
   \/ e.op = "FWakeByRef"    /\ FWakeByRef(e.t, e.w)
   \/ e.op = "FWakeBegin"    /\ FWakeBegin(e.t, e.w)
   \/ e.op = "FWakeEnd"      /\ FWakeEnd(e.t)
-  \/ e.op = "FDrop"         /\ FDrop(e.t, e.w)
+  \/ e.op = "FDrop"         /\ FDrop(e.t, e.w, e.how)
   \/ e.op = "Give"          /\ Give(e.t, e.w, e.u)
 
 IsWake(e) == e.op \in {"ViewWakeByRef", "FWake", "FWakeByRef", "FWakeBegin"}
